@@ -9,6 +9,7 @@ const maxEntries = 128
 
 type Map struct {
 	mu        sync.Mutex
+	started   bool
 	next      uint16
 	nextPid   uint16
 	delta     uint16
@@ -30,8 +31,9 @@ func (m *Map) Map(seqno uint16, pid uint16) (bool, uint16, uint16) {
 	defer m.mu.Unlock()
 
 	if m.delta == 0 && m.entries == nil {
-		if compare(m.next, seqno) <= 0 ||
+		if !m.started || compare(m.next, seqno) <= 0 ||
 			uint16(m.next-seqno) > 8*1024 {
+			m.started = true
 			m.next = seqno + 1
 			m.nextPid = pid
 		}
